@@ -304,15 +304,17 @@ def rule_d(ctx, ix):
                       % f.construct, where=f.where)
 
 
-def rule_e(ctx, ix):
+def rule_e(ctx, ix, only=None):
     """The "nothing changed" shortcuts that skip installing recomputed link information must compare the values, not only the keys."""
     R = 'C03.e'
-    ctx.describe(R, 'no-change shortcuts compare what they are about to replace (values, not only keys)', floor=2)
+    ctx.describe(R, 'no-change shortcuts compare what they are about to replace (values, not only keys)', floor=2 if only is None else len(only))
     base = ix.cls('glue.core.data.BaseCartesianData')
     rows = [('_set_externally_derivable_components', '_externally_derivable_components', '.link',
              'the link each attribute is derived through'),
             ('_set_pixel_aligned_data', '_pixel_aligned_data', '[', 'the axis order stored for each aligned dataset')]
     for meth, field, needle, what in rows:
+        if only is not None and meth not in only:
+            continue
         f = base.resolve_func(meth)
         if f is None:
             raise AnalysisError('BaseCartesianData.%s vanished' % meth)
